@@ -25,8 +25,121 @@ def run_model(ctx, sub, lines):
 def flow_of(pid):
     if pid.startswith("site:"):
         return "capture-site"
+    if pid.startswith("spell:"):
+        return "capture-site-spelled"
     m = re.match(r"gen:\d+:\d+:(.+)$", pid)
     return m.group(1) if m else ("main-stream" if pid.startswith("gen:") else "corpus")
+
+
+def spelled_twins(ctx, progs, captures, spell_of, gc):
+    """Model-free oracles on the `spell:` stream (harness/src/c08spell.rs).  A cell is three programs:
+    `:S` the closure mentions a variable of its defining scope that is SPELLED like a package-level
+    name, `:A` the same text with that variable called by a fresh name, `:I` the spelled program with
+    the closure body evaluated in place.  Lexical scoping + C08: all three are accepted alike, print
+    the same at every stage, and S and A capture the same variables."""
+    cells = {}
+    for pid in progs:
+        if pid.startswith("spell:"):
+            base, tag = pid.rsplit(":", 1)
+            cells.setdefault(base, {})[tag] = pid
+    n = {"cells": 0, "cells_compared": 0, "twin_rejected(cell does not exist)": 0, "accept_violations": 0,
+         "behaviour_violations": 0, "capture_set_violations": 0, "capture_sets_compared": 0, "captured_variables": 0}
+    by_spelling = {}
+
+    def state(pid):
+        d = progs.get(pid)
+        if d is None:
+            return None
+        if "reject" in d:
+            return "rejected:" + d["reject"][0] + ":" + vlib.unesc(d["reject"][1])[:200]
+        if "panic" in d:
+            return "panic"
+        return "accepted"
+
+    for base, tags in sorted(cells.items()):
+        n["cells"] += 1
+        sA, sS, sI = state(tags.get("A")), state(tags.get("S")), state(tags.get("I"))
+        if sA is None or sS is None:
+            ctx.broken_ties.append(("spelled capture sites", f"{base}: program or alpha-twin missing"))
+            continue
+        name, fresh, spell_kind = spell_of.get(tags["S"], ("?", "?", "?"))
+        f = base.split(":")
+        dims = {"context": f[1], "value": f[2], "binder": f[3], "depth": f[4], "declared_in": f[5], "spelling": spell_kind}
+        bs = by_spelling.setdefault(f"{spell_kind}/{f[5]}", {"cells": 0, "violations": 0})
+        bs["cells"] += 1
+        payload = {"id": base, **dims, "name": name, "fresh_name": fresh, "src": progs[tags["S"]].get("src"),
+                   "alpha_twin_src": progs[tags["A"]].get("src"), "in_place_src": progs.get(tags.get("I"), {}).get("src") if "I" in tags else None,
+                   "outcome": {"spelled": sS, "alpha_twin": sA, "in_place": sI}}
+        if sA != "accepted":
+            if sS == "accepted":
+                n["accept_violations"] += 1
+                bs["violations"] += 1
+                ctx.report({"oracle": "spelling-accept", "kind": "accepted-only-under-the-package-level-spelling", "spelling": spell_kind},
+                           "a closure program is accepted when the captured variable is spelled like a package-level name and rejected when it has a fresh name", payload)
+            else:
+                n["twin_rejected(cell does not exist)"] += 1
+            continue
+        if sS != "accepted" or (sI is not None and sI != "accepted"):
+            which = "closure" if sS != "accepted" else "in-place"
+            n["accept_violations"] += 1
+            bs["violations"] += 1
+            ctx.report({"oracle": "spelling-accept", "kind": f"{which}-program-rejected-under-the-package-level-spelling", "spelling": spell_kind,
+                        "stage": (sS if sS != "accepted" else sI).split(":")[1] if ":" in (sS if sS != "accepted" else sI) else "panic"},
+                       "a closure program accepted under a fresh name of the captured variable is rejected when that variable is spelled like a package-level name: "
+                       "the closure does not see a variable of its defining scope", payload)
+            continue
+        n["cells_compared"] += 1
+        # ---- behaviour: every stage of S and of I prints what the alpha-twin's Mono form prints
+        oA = progs[tags["A"]].get("out", {})
+        ref = oA.get("mono")
+        bad = None
+        if ref and ref[0] not in ("fuel", "decode-error", "parse-error") and not ref[0].startswith("stuck"):
+            for tag, label in (("S", "closure"), ("I", "in-place")):
+                if tag not in tags:
+                    continue
+                o = progs[tags[tag]].get("out", {})
+                go_ok = gc.get(tags[tag], ("ok",))[0] != "err"
+                for st in STAGES:
+                    v = o.get(st)
+                    if v is None or v[0] in ("fuel", "decode-error", "parse-error") or (st == "go" and not go_ok):
+                        continue
+                    if (v[0], v[1]) != (ref[0], ref[1]):
+                        bad = (label, st, v)
+                        break
+                if bad:
+                    break
+        if bad:
+            label, st, v = bad
+            n["behaviour_violations"] += 1
+            bs["violations"] += 1
+            payload["expected(alpha-twin, Mono under Sem)"] = {"status": ref[0], "stdout": vlib.unesc(ref[1])[:300]}
+            payload["observed"] = {"program": label, "stage": st, "status": v[0], "stdout": vlib.unesc(v[1])[:300]}
+            ctx.report({"oracle": "spelling-behaviour", "program": label, "first_divergent_stage": st, "spelling": spell_kind},
+                       f"the {label} program prints something else when the captured variable is spelled like a package-level name than when it has a fresh name "
+                       "(the closure's result is not that of its body evaluated in its defining scope)", payload)
+        # ---- capture sets of the REAL Lift output: S and A capture the same variables
+        cS, cA = captures.get(tags["S"]), captures.get(tags["A"])
+        if cS is not None and cA is not None:
+            n["capture_sets_compared"] += 1
+            pat = re.compile(r"(?<![A-Za-z0-9])" + re.escape(name) + r"(?=_\d+$)")
+            def norm(text):
+                out = []
+                for item in text.split(";") if text else []:
+                    st_name, _, fields = item.partition("=")
+                    out.append((pat.sub(fresh, st_name), [pat.sub(fresh, x) for x in fields.split(",") if x]))
+                return out
+            a, b = norm(cS), norm(cA)
+            n["captured_variables"] += sum(len(x[1]) for x in b)
+            if a != b:
+                n["capture_set_violations"] += 1
+                bs["violations"] += 1
+                payload = dict(payload)
+                payload["capture_sets(env struct = fields)"] = {"spelled": cS, "alpha_twin": cA}
+                ctx.report({"oracle": "spelling-capture-set", "spelling": spell_kind},
+                           "a closure captures a different set of variables when a variable of its defining scope is spelled like a package-level name", payload)
+    n["by_spelling"] = by_spelling
+    return n
+
 
 
 def run(ctx):
@@ -44,6 +157,8 @@ def run(ctx):
     for r in rows:
         if len(r) >= 4 and r[1] == "UNBOUND":
             unbound.setdefault(r[0], []).append((r[2], r[3]))
+    captures = {r[0]: (r[2] if len(r) > 2 else "") for r in rows if len(r) >= 2 and r[1] == "CAPTURES"}
+    spell_of = {r[0]: (r[2], r[3], r[4]) for r in rows if len(r) >= 5 and r[1] == "SPELL"}
     for r in tyloss[:5]:
         ctx.broken_ties.append(("dump loses a type the pass reads", f"{r[0]}: stored type of `{r[2]}` differs from the type recomputed by Lift.monoTy"))
 
@@ -161,6 +276,7 @@ def run(ctx):
         ctx.report({"oracle": "closed", "stage": "lift", "where": role},
                    "a lifted function refers to an unbound local: a variable of its defining scope that the closure did not capture",
                    {"id": pid, "flow": flow_of(pid), "src": d.get("src"), "unbound": [{"function": f, "variable": v} for f, v in pairs[:5]]})
+    spell_cov = spelled_twins(ctx, progs, captures, spell_of, gc)
     rejected = [pid for pid, d in progs.items() if "reject" in d]
     panics = [(pid, d) for pid, d in progs.items() if "panic" in d]
     for pid, d in panics[:3]:
@@ -169,7 +285,8 @@ def run(ctx):
     ctx.violations.sort(key=lambda v: len(v[2].get("src") or "x" * 10**6))
     cov = {
         "evaluations": n_prog * len(STAGES) + len(cases), "distinct_nontrivial": len(distinct),
-        "rule": "one case = one accepted goml program (74 corpus programs + C02/C08 witnesses + seeded closure-centred programs); L1 compares the model's "
+        "rule": "one case = one accepted goml program (74 corpus programs + C02/C08 witnesses + seeded closure-centred programs + capture sites, "
+                "also with the captured variable spelled like a package-level name, each beside its alpha-twin and its in-place twin); L1 compares the model's "
                 "lifting of its real Mono file with the real Lift file and environment; the oracle runs its real Mono/Lift/ANF dumps under Sem and its real Go AST "
                 "under Go.Sem; non-trivial = at least one closure and prints something; distinct by stdout and Lift size",
         "samples": samples or [{"id": "corpus only"}],
@@ -179,6 +296,7 @@ def run(ctx):
         "closure_nodes_left_in_model_output": sum(int(s.get("closure_nodes_left", 0)) for s in stats.values()),
         "oracle_all_stages_agree(go valid)": n_agree, "impl_oracle_failures": len(ctx.violations),
         "lift_files_not_closed": len(unbound), "capture_site_programs": by_flow.get("capture-site", {}).get("programs", 0),
+        "spelled_capture_sites": spell_cov,
         "go_invalid(owned by C02)": n_invalid, "go_invalid_by_gocheck_code": invalid_kinds,
         "go_invalid_and_Sem(lift)!=Sem(mono)": n_invalid_liftdiff,
         "fuel_exhausted(skipped)": n_fuel, "extern_calls(skipped)": n_ext,
